@@ -428,7 +428,7 @@ mod engine {
                     nontrivial,
                     evals,
                     violation: Some(v),
-                    desc: Some(json!({"entry": op.kind, "op": op.to_json(), "cfg": cfg.to_json(&[])})),
+                    desc: Some(json!({"entry": op.kind, "op": op.to_json(), "decoded": hist::describe(&op), "cfg": cfg.to_json(&[])})),
                 };
             }
             for _ in 0..k {
@@ -462,12 +462,12 @@ mod engine {
                 dg.add(cfg.global as u64);
                 dg.add(td.finish());
                 if let Some(v) = self.judge(prop, &op, &cfg, &po, &oclass, &ohash, expected.as_ref()) {
-                    desc = Some(json!({"entry": op.kind, "op": op.to_json(), "cfg": cfg.to_json(&po.trace)}));
+                    desc = Some(json!({"entry": op.kind, "op": op.to_json(), "decoded": hist::describe(&op), "cfg": cfg.to_json(&po.trace)}));
                     violation = Some(v);
                     break;
                 }
                 if want_desc && desc.is_none() && po.counters.joins > 0 {
-                    desc = Some(json!({"entry": op.kind, "op": op.to_json(), "cfg": cfg.to_json(&po.trace),
+                    desc = Some(json!({"entry": op.kind, "op": op.to_json(), "decoded": hist::describe(&op), "cfg": cfg.to_json(&po.trace),
                                        "joins": po.counters.joins, "steals": po.counters.steals}));
                 }
             }
